@@ -1,4 +1,6 @@
-(** * C04 -- 2D sew/unsew keep embedded data attached to the right cells (work in progress). *)
+(** * C04 -- 2D sew/unsew keep embedded data attached to the right cells.  Proved: atomicity, the topology clause
+    for the four sews, the data clause for coordinates through the 1-sew / 1-unsew; the other data clauses are
+    decided by Extract/Sew2Oracle.v on implementation observations. *)
 From Coq Require Import List NArith Bool.
 From HC Require Import Stm.Prog Stm.Atomic Map2.Ops2 Map2.State2 Map2.Tx2Proofs.
 Open Scope N_scope.
@@ -36,3 +38,33 @@ Theorem C04_two_unsew_topology `{Sig} : forall E n ks l c w cnt w1 cnt1,
   exists w2, run E (two_unlink_core l) c w cnt = (Done tt, w2, cnt) /\ topo_eq w2 w1.
 Proof. exact two_unsew_topology. Qed.
 Print Assumptions C04_two_unsew_topology.
+
+(** Data clause, proved for the coordinates carried through the 1-sew and the 1-unsew (the attribute kinds and the
+    2-sews are decided per observation by Extract/Sew2Oracle.v): when the 1-sew of [l] onto [r] merges two
+    vertices, the vertex of the linked map -- identified by the smallest dart of its orbit -- carries the lawful
+    merge of the two former values, the former identifiers are emptied and every other slot is untouched (a vertex
+    merged with itself keeps its value); the 1-unsew is the mirror image with the split law. *)
+From HC Require Import Stm.ProgFacts Map2.Wf2 Map2.Orbit2 Map2.Orbit2Proofs Map2.SewData.
+Theorem C04_one_sew_vertex_data `{Sig} : forall E n ks l r c w cnt w' cnt',
+  dom_ok E n -> wf2 n w -> okd n w l -> okd n w r -> beta w 2 l <> 0 ->
+  run E (one_sew n ks l r) c w cnt = (Done tt, w', cnt') ->
+  exists i1 i2 i',
+    is_vid n w (beta w 2 l) i1 /\ is_vid n w r i2 /\ is_vid n (set1 w l r) r i' /\
+    (forall d, d <> i1 -> d <> i2 -> d <> i' -> vertex w' d = vertex w d) /\
+    (i1 <> i2 -> merged (vertex w i1) (vertex w i2) <> None /\ vertex w' i' = merged (vertex w i1) (vertex w i2) /\
+                 (i1 <> i' -> vertex w' i1 = None) /\ (i2 <> i' -> vertex w' i2 = None)) /\
+    (i1 = i2 -> vertex w' i' = vertex w i1 /\ (i1 <> i' -> vertex w' i1 = None)).
+Proof. exact one_sew_vertex_data. Qed.
+Print Assumptions C04_one_sew_vertex_data.
+Theorem C04_one_unsew_vertex_data `{Sig} : forall E n ks l c w cnt w' cnt',
+  dom_ok E n -> wf2 n w -> okd n w l -> beta w 2 l <> 0 -> beta w 1 l <> 0 ->
+  run E (one_unsew n ks l) c w cnt = (Done tt, w', cnt') ->
+  let r := beta w 1 l in let w1 := clr1 w l r in
+  exists i0 il ir,
+    is_vid n w r i0 /\ is_vid n w1 (beta w 2 l) il /\ is_vid n w1 r ir /\
+    (forall d, d <> il -> d <> ir -> d <> i0 -> vertex w' d = vertex w d) /\
+    (il <> ir -> exists lv rv, split_of (vertex w i0) = Some (lv, rv) /\ vertex w' il = Some lv /\ vertex w' ir = Some rv /\
+                  (i0 <> il -> i0 <> ir -> vertex w' i0 = None)) /\
+    (il = ir -> vertex w' il = vertex w i0 /\ (i0 <> il -> vertex w' i0 = None)).
+Proof. exact one_unsew_vertex_data. Qed.
+Print Assumptions C04_one_unsew_vertex_data.
